@@ -14,15 +14,12 @@ MustL == {y \in Layouts : y.f /\ y.d /\ y.k = 0 /\ y.m = 0}
 PickL == IF KL >= Cardinality(Layouts) THEN Layouts ELSE MustL \cup RandomSubset(KL, Layouts)
 
 MustS == { Sp(FALSE, <<"l">>), Sp(FALSE, <<"l", "s">>), Sp(FALSE, <<"l", "n">>), Sp(FALSE, <<"l", "">>),
-           Sp(FALSE, <<"l", "..", "s">>), Sp(FALSE, <<"l", "..", "out", "s">>),
-           Sp(FALSE, <<"..", "out", "s">>), Sp(FALSE, <<"..", "out", "n">>), Sp(FALSE, <<"..", "out">>),
-           Sp(FALSE, <<"d", "..", "..", "out", "s">>), Sp(FALSE, <<"..">>), Sp(FALSE, <<".">>),
-           Sp(TRUE, <<"a", "w", "out", "s">>), Sp(TRUE, <<"a", "w", "out", "n">>), Sp(TRUE, <<"a", "w", "out">>),
-           Sp(FALSE, <<"..", "rootx", "s">>), Sp(TRUE, <<"a", "w", "rootx", "s">>), Sp(TRUE, <<"a", "w", "rootx", "n">>),
-           Sp(TRUE, <<"a", "w", "root", "l">>), Sp(TRUE, <<"a", "w", "root", "l", "s">>), Sp(TRUE, <<"a", "w", "root", "l", "n">>), Sp(TRUE, <<"a", "w", "root", "..", "out", "s">>),
-           Sp(TRUE, <<"", "a", "w", "out", "", "s">>), Sp(TRUE, <<"f">>), Sp(TRUE, <<>>),
-           Sp(FALSE, <<"f">>), Sp(FALSE, <<"n">>), Sp(FALSE, <<"d">>), Sp(FALSE, <<"d", "g">>),
-           Sp(FALSE, <<"d", "k">>), Sp(FALSE, <<"m">>), Sp(FALSE, <<"m", "n">>), Sp(FALSE, <<"d", "n", "">>) }
+           Sp(FALSE, <<"l", "..", "s">>), Sp(FALSE, <<"..", "out", "s">>), Sp(FALSE, <<"..", "out", "n">>),
+           Sp(FALSE, <<"d", "..", "..", "out">>), Sp(FALSE, <<"..", "rootx", "s">>),
+           Sp(TRUE, <<"a", "w", "out", "s">>), Sp(TRUE, <<"a", "w", "out", "n">>), Sp(TRUE, <<"a", "w", "rootx", "s">>),
+           Sp(TRUE, <<"a", "w", "root", "l">>), Sp(TRUE, <<"a", "w", "root", "l", "s">>), Sp(TRUE, <<"a", "w", "root", "l", "n">>),
+           Sp(TRUE, <<"a", "w", "root", "..", "out", "s">>), Sp(TRUE, <<"", "a", "w", "out", "", "s">>), Sp(TRUE, <<"f">>),
+           Sp(FALSE, <<"f">>), Sp(FALSE, <<"n">>), Sp(FALSE, <<"d", "g">>), Sp(FALSE, <<".">>) }
 PickS(fs) == LET S == Spellings(Names(fs), MaxLen) IN
              MustS \cup (IF KS >= Cardinality(S) THEN S ELSE RandomSubset(KS, S))
 
